@@ -9,6 +9,7 @@ their effects wrapped in a `loop` event.  Constructs outside the subset raise
 from __future__ import annotations
 
 import ast
+import copy
 from dataclasses import dataclass, field
 
 from .report import AnalysisError
@@ -55,9 +56,76 @@ def register_match_fields(table: dict[str, list[str]]) -> None:
 class PyEval:
     MAX_PATHS = 4000
 
-    def __init__(self, match_fields=None):
+    def __init__(self, match_fields=None, resolver=None, max_inline: int = 3):
         # match_fields(class name) -> list of positional field names for `case C(a, b)` patterns
         self.match_fields = match_fields or DEFAULT_MATCH_FIELDS
+        # resolver(call node, env, evaluator) -> (FunctionDef, value bound to its first parameter or None) | None.
+        # A resolved helper called as a whole statement (`x = h(..)`, `h(..)`, `return h(..)`) is evaluated in place: its paths
+        # fork the caller's, its attribute stores go to the shared heap part of the environment (keys that are tuples).
+        self.resolver = resolver
+        self.max_inline = max_inline
+        self._inlining: list = []
+
+    def _inline_call(self, call: ast.Call, p: PPath):
+        """-> [(path, value)] (value None for a raising path) or None if the call is not inlined"""
+        if self.resolver is None or len(self._inlining) >= self.max_inline:
+            return None
+        if any(isinstance(a, ast.Starred) for a in call.args) or any(k.arg is None for k in call.keywords):
+            return None
+        env = dict(p.env)
+        hit = self.resolver(call, env, self)
+        if hit is None:
+            return None
+        fn, selfval = hit
+        if any(f is fn for f in self._inlining) or fn.args.vararg or fn.args.kwarg:
+            return None
+        ev: list = []
+        argv = [self.expr(a, env, ev) for a in call.args]
+        kwv = {k.arg: self.expr(k.value, env, ev) for k in call.keywords}
+        allpos = list(fn.args.posonlyargs + fn.args.args)
+        params = list(allpos)
+        cenv = {k: v for k, v in env.items() if isinstance(k, tuple)}
+        if selfval is not None:
+            if not params:
+                return None
+            cenv[params[0].arg] = selfval
+            params = params[1:]
+        if len(argv) > len(params):
+            return None
+        defaults = {}
+        if fn.args.defaults:
+            for a, d in zip(allpos[-len(fn.args.defaults):], fn.args.defaults):
+                defaults[a.arg] = d
+        for a, kd in zip(fn.args.kwonlyargs, fn.args.kw_defaults):
+            if kd is not None:
+                defaults[a.arg] = kd
+        for i, a in enumerate(params + list(fn.args.kwonlyargs)):
+            if i < len(argv) and i < len(params):
+                cenv[a.arg] = argv[i]
+            elif a.arg in kwv:
+                cenv[a.arg] = kwv[a.arg]
+            elif a.arg in defaults:
+                cenv[a.arg] = self.expr(defaults[a.arg], {}, [])
+            else:
+                return None
+        self._inlining.append(fn)
+        try:
+            outs = self._block(fn.body, [PPath(conds=list(p.conds), events=p.events + ev, env=cenv)])
+        finally:
+            self._inlining.pop()
+        res = []
+        for q in outs:
+            new_env = {k: v for k, v in env.items() if not isinstance(k, tuple)}
+            new_env.update({k: v for k, v in q.env.items() if isinstance(k, tuple)})
+            if q.end[0] == 'return':
+                res.append((PPath(q.conds, q.events, ('fall',), new_env), q.end[1]))
+            elif q.end == ('fall',):
+                res.append((PPath(q.conds, q.events, ('fall',), new_env), ('const', None)))
+            elif q.end[0] == 'raise':
+                res.append((PPath(q.conds, q.events, q.end, new_env, q.node), None))
+            else:
+                return None
+        return res
 
     # -- entry -----------------------------------------------------------
     def paths(self, fn: ast.FunctionDef, env: dict | None = None) -> list[PPath]:
@@ -98,6 +166,10 @@ class PyEval:
         if isinstance(st, ast.Expr):
             if isinstance(st.value, ast.Constant):
                 return [p]
+            if isinstance(st.value, ast.Call):
+                inl = self._inline_call(st.value, p)
+                if inl is not None:
+                    return [q for q, _v in inl]
             env = dict(p.env)
             ev: list = []
             v = self.expr(st.value, env, ev)
@@ -109,6 +181,19 @@ class PyEval:
         if isinstance(st, (ast.Assign, ast.AnnAssign)):
             if isinstance(st, ast.AnnAssign) and st.value is None:
                 return [p]
+            if isinstance(st.value, ast.Call):
+                inl = self._inline_call(st.value, p)
+                if inl is not None:
+                    out = []
+                    for q, v in inl:
+                        if v is None:
+                            out.append(q)
+                            continue
+                        env, ev = dict(q.env), []
+                        for t in (st.targets if isinstance(st, ast.Assign) else [st.target]):
+                            self._bind(t, v, env, ev, st)
+                        out.append(self._fork(q, events=ev, env=env))
+                    return out
             env = dict(p.env)
             ev = []
             v = self.expr(st.value, env, ev)
@@ -126,6 +211,15 @@ class PyEval:
                 env[st.target.id] = ('binop', type(st.op).__name__, tgt, v)
             return [self._fork(p, events=ev, env=env)]
         if isinstance(st, ast.Return):
+            if isinstance(st.value, ast.IfExp):
+                # `return a if c else b` is `if c: return a` / `else: return b`
+                iff = ast.If(test=st.value.test, body=[ast.copy_location(ast.Return(value=st.value.body), st)],
+                             orelse=[ast.copy_location(ast.Return(value=st.value.orelse), st)])
+                return self._stmt(ast.copy_location(iff, st), p)
+            if isinstance(st.value, ast.Call):
+                inl = self._inline_call(st.value, p)
+                if inl is not None:
+                    return [q if v is None else self._fork(q, end=('return', v), node=st) for q, v in inl]
             env = dict(p.env)
             ev = []
             v = self.expr(st.value, env, ev) if st.value is not None else ('const', None)
@@ -499,6 +593,43 @@ class PyEval:
 
 
 # ----------------------------------------------------------------------------
+
+class _Subst(ast.NodeTransformer):
+    def __init__(self, name, repl):
+        self.name, self.repl = name, repl
+
+    def visit_Name(self, n):
+        if n.id == self.name and isinstance(n.ctx, ast.Load):
+            return ast.copy_location(copy.deepcopy(self.repl), n)
+        return n
+
+
+def unroll_constant_loops(fn: ast.FunctionDef) -> ast.FunctionDef:
+    """`for c in (A, B, C): body` over a literal tuple / list of names becomes body[c:=A]; body[c:=B]; body[c:=C] (a copy of the
+    function is returned; the repository's tree is left alone).  Only loops without else / break / continue whose variable is not
+    assigned in the body are unrolled; `return` in the body keeps its meaning."""
+    class U(ast.NodeTransformer):
+        def visit_For(self, n):
+            self.generic_visit(n)
+            if n.orelse or not isinstance(n.target, ast.Name) or not isinstance(n.iter, (ast.Tuple, ast.List)):
+                return n
+            if not n.iter.elts or not all(isinstance(e, (ast.Name, ast.Attribute, ast.Constant)) for e in n.iter.elts):
+                return n
+            for st in n.body:
+                for m in ast.walk(st):
+                    if isinstance(m, (ast.Break, ast.Continue)):
+                        return n
+                    if isinstance(m, ast.Name) and m.id == n.target.id and isinstance(m.ctx, (ast.Store, ast.Del)):
+                        return n
+            out = []
+            for e in n.iter.elts:
+                for st in n.body:
+                    out.append(_Subst(n.target.id, e).visit(copy.deepcopy(st)))
+            return out
+    g = U().visit(copy.deepcopy(fn))
+    ast.fix_missing_locations(g)
+    return g
+
 
 def show(v) -> str:
     if not isinstance(v, tuple) or not v:
